@@ -60,6 +60,14 @@ def run_tables(ctx, case):
     ctx.note(klass=case['kind'], desc=[case['kind'], case.get('n')], nontrivial=True, labels=[case['kind']])
     ctx.fresh(lambda: _table(case)[0], 'Cayley table: a second call is not affected by editing the array returned by the first')
     T, order = _table(case)
+
+    # the same ndarray object holding first this table, then (overwritten in place) the table of the opposite group: the left-regular form follows the contents
+    buf = np.array(_table(case)[0], copy=True)
+    L1 = np.asarray(g.cayley_table_to_left_regular_form(buf))
+    buf[...] = buf.T.copy()
+    L2 = np.asarray(g.cayley_table_to_left_regular_form(buf))
+    L2_fresh = np.asarray(g.cayley_table_to_left_regular_form(np.array(buf, copy=True)))
+    ctx.close(L2, L2_fresh, 0, 'left-regular form of an array that was overwritten in place = form of a fresh copy of its contents')
     T = np.asarray(T)
     ctx.require(T.ndim == 2 and T.shape == (order, order), 'table has the stated order', f'{T.shape} vs {order}')
     N = order
